@@ -19,8 +19,8 @@ FORBIDDEN_SOURCES = ('random.', 'secrets.', 'uuid.', 'os.urandom', 'time.time', 
                      'numpy.random.Generator', 'datetime.datetime.now')
 
 
-def rule_reseed(ctx):
-    for fq in FITS:
+def rule_reseed(ctx, rule='R08.1/reseed-dominates', fits=None):
+    for fq in (fits or FITS):
         f = ctx.func(fq)
         body = f.node.body
         # domains in which a draw is reachable from this fit
@@ -51,7 +51,7 @@ def rule_reseed(ctx):
                             seed_idx = i
             first_draw = min(draw_stmt_idx[dom])
             ok = seed_idx is not None and seed_idx < first_draw
-            ctx.check(ok, 'R08.1/reseed-dominates', con, f"{SEED_CALLS[dom].split('.')[-1]}(self.random_seed) precedes every {dom}-domain draw",
+            ctx.check(ok, rule, con, f"{SEED_CALLS[dom].split('.')[-1]}(self.random_seed) precedes every {dom}-domain draw",
                       f"a {dom}-domain random draw is reachable from statement {first_draw} of fit() but "
                       + ("no seeding of that domain with self.random_seed exists" if seed_idx is None else f"the seeding happens later (statement {seed_idx})"),
                       f.where(body[first_draw]))
